@@ -27,6 +27,7 @@ impl<T> ProviderMutex<T> {
     }
 
     /// Whether a thread panicked while holding the lock.
+    #[cfg(temporal_verif)]
     pub fn is_poisoned(&self) -> bool {
         self.0.is_poisoned()
     }
